@@ -300,7 +300,17 @@ def observe_computed(job, computed, rowmaps):
         for s in (cd.in_transaction_set, cd.out_transaction_set, cd.intra_transaction_set):
             # the filtered sets hide rows outside the window: walk the unfiltered lists
             for t in s._entry_list:  # pylint: disable=protected-access
-                if t.row >= 0:
+                # a transaction is identified by the unique id the concretiser wrote (t<n> = position n of the history); an out-transaction that
+                # carries the unique id of an acquisition is the artificial fee disposal of that acquisition (whatever internal id rp2 gave it)
+                uid0 = str(getattr(t, "unique_id", "") or "")
+                pos0 = int(uid0[1:]) - 1 if uid0.startswith("t") and uid0[1:].isdigit() and 0 < int(uid0[1:]) <= len(h) else None
+                kind = type(t).__name__
+                cls0 = {"InTransaction": "in", "OutTransaction": "out", "IntraTransaction": "intra"}.get(kind)
+                if pos0 is not None and h[pos0]["cls"] == cls0:
+                    idmap[t.internal_id] = pos0 + 1
+                elif pos0 is not None and cls0 == "out" and pos0 in fee_parents:
+                    idmap[t.internal_id] = len(h) + 1 + fee_parents.index(pos0)
+                elif t.row >= 0 and t.row in rowmaps[asset]:
                     idmap[t.internal_id] = rowmaps[asset][t.row] + 1
                 else:
                     tt, _o, _k = _tsobs(t.timestamp)
